@@ -152,6 +152,22 @@ fn doc_info<T: TS + 'static + ?Sized>() -> String {
     )
 }
 
+/// leaves the base directory and imports types inside it, next to it and in its own directory
+#[derive(TS)]
+#[ts(export_to = "../esc/Esc.ts")]
+pub struct Esc {
+    a: A,
+    d: Vec<D>,
+    e: Option<E>,
+    s: EscSib,
+}
+
+#[derive(TS)]
+#[ts(export_to = "../esc/")]
+pub struct EscSib {
+    c2: C2,
+}
+
 struct Rec(Vec<String>);
 impl TypeVisitor for Rec {
     fn visit<T: TS + 'static + ?Sized>(&mut self) {
@@ -222,7 +238,7 @@ macro_rules! universe {
 }
 
 universe!(
-    A, B, C, D, E, F, G<i32>, G<C, A>, G<ts_rs::Dummy, ts_rs::Dummy>, U1, U2, Up, H, C2, Up4, H4,
+    A, B, C, D, E, F, G<i32>, G<C, A>, G<ts_rs::Dummy, ts_rs::Dummy>, U1, U2, Up, H, C2, Up4, H4, Esc, EscSib,
     Vec<A>, Option<B>, i32, (C, D), std::collections::HashMap<String, E>, Box<A>,
 );
 
